@@ -1,5 +1,6 @@
 import Exetera.Lemmas.CsvDriverThm
 import Exetera.Lemmas.CsvWindow
+import Exetera.Lemmas.CsvLoopThm
 /-!
 # C05 — CSV import reproduces the file's records exactly, independent of chunking
 
@@ -13,8 +14,9 @@ An `.ok` result means: every subscript of the compiled kernel was in bounds, no 
 within its fuel `len(source) + 1` (termination), and the driver ended within the given number of kernel calls.
 
 Proved for all inputs: `fsm_whole_eq_spec`, `fsm_split_at_record_end`, `fsm_window_eq_spec`,
-`import_single_window_eq_spec`, `include_exclude_selects`. Not proved (kept visible below as comments): `window_chunking_unobservable`,
-`regrowth_unobservable` — the general multi-window / buffer-regrowth statements; they are supported by the exhaustive
+`import_single_window_eq_spec`, `window_chunking_unobservable_partial`, `chunk_size_unobservable_partial`,
+`include_exclude_selects`. Not proved (kept visible below as comments): the full `window_chunking_unobservable` (every starting budget ≥ 1) and
+`regrowth_unobservable` — the runs in which a staging buffer fills and is enlarged; they are supported by the exhaustive
 small-scope and random correspondence only.
 -/
 namespace Exetera.Props.C05
@@ -166,6 +168,52 @@ theorem import_single_window_eq_spec {file : List Nat} {crs ncols : Nat} {offs :
   readFile_single_window hrow rows im fuel hfile hne hhdr htab.2 htab.1 hcrs hwin hbuf.len hbuf.zero hbuf.mono hfit hrows
     him hfuel
 
+/-- The supported regime of the property and the two no-regrowth conditions, for a file `file` that is the text of the header
+    line `hrow` and the table `rows` (with or without the final line break), read with `chunk_row_size = crs`:
+    * `reg`: every line (header line, every record, with its line break) fits the byte window `2·crs·ncols`
+      — the regime stated in the property;
+    * `min`: no line consists of empty cells only (such a line has exactly `ncols` bytes) — then a window never holds
+      `2·crs` records and the index buffer never fills;
+    * `fit`: every column's bytes fit its value budget — the value buffer never fills. -/
+structure Supported (file : List Nat) (crs ncols : Nat) (offs : List Nat) (hrow : List Cell) (rows : List (List Cell)) :
+    Prop where
+  isFile : file = render (hrow :: rows) ∨ (file ++ [Csv.NL] = render (hrow :: rows) ∧ file.getLast? ≠ some Csv.NL)
+  nonempty : file ≠ []
+  hdr : hrow.length = ncols ∧ ∀ c ∈ hrow, c.WF
+  tab : Table ncols rows
+  crsPos : 0 < crs
+  reg : ∀ l ∈ hrow :: rows, (renderCells l).length ≤ crs * Gen.Csv.CHUNK_ROW_FACTOR * ncols
+  min : ∀ l ∈ hrow :: rows, ncols < (renderCells l).length
+  buf : Buffers ncols (crs * Gen.Csv.CHUNK_ROW_FACTOR) offs
+  fit : Fits ncols offs rows
+
+/-- **window_chunking_unobservable_partial.** For *every* `chunk_row_size` in the supported regime — any number of windows,
+    window boundaries anywhere (inside quoted cells, between the quotes of an escaped quote, at record ends) — the driver
+    `read_file_using_fast_csv_reader` terminates within `rows + 2` kernel calls and the destination fields are exactly the
+    columns of the table: the same result as reading the file in one window (`import_single_window_eq_spec`).
+    Partial: the hypotheses `min` and `fit` exclude the runs in which a staging buffer fills (regrowth). -/
+theorem window_chunking_unobservable_partial {file : List Nat} {crs ncols : Nat} {offs : List Nat} {hrow : List Cell}
+    {rows : List (List Cell)} (h : Supported file crs ncols offs hrow rows) (im : List Nat) (him : ∀ c ∈ im, c < ncols)
+    (fuel : Nat) (hfuel : rows.length + 2 ≤ fuel) :
+    ∃ calls, readFile file crs ncols offs im (im.map (fun _ => ({ kind := .indexed } : Imp))) fuel =
+      .ok ⟨rows.length, im.map (fun c => fieldOf (column (values rows) c)), calls⟩ :=
+  readFile_windows
+    { isFile := h.isFile, hdr := h.hdr, tab := h.tab.2, nc := h.tab.1, crsPos := h.crsPos, reg := h.reg, min := h.min,
+      offsLen := h.buf.len, offs0 := h.buf.zero, mono := h.buf.mono, fit := h.fit, imOk := him }
+    h.nonempty fuel hfuel
+
+/-- **chunk_size_unobservable_partial.** Two imports of the same file with different `chunk_row_size` (and the budgets
+    that go with them), both in the supported regime without regrowth, produce the same row count and the same fields. -/
+theorem chunk_size_unobservable_partial {file : List Nat} {crs₁ crs₂ ncols : Nat} {offs₁ offs₂ : List Nat} {hrow : List Cell}
+    {rows : List (List Cell)} (h₁ : Supported file crs₁ ncols offs₁ hrow rows) (h₂ : Supported file crs₂ ncols offs₂ hrow rows)
+    (im : List Nat) (him : ∀ c ∈ im, c < ncols) (fuel : Nat) (hfuel : rows.length + 2 ≤ fuel) :
+    ∃ o₁ o₂, readFile file crs₁ ncols offs₁ im (im.map (fun _ => ({ kind := .indexed } : Imp))) fuel = .ok o₁ ∧
+      readFile file crs₂ ncols offs₂ im (im.map (fun _ => ({ kind := .indexed } : Imp))) fuel = .ok o₂ ∧
+      o₁.rows = o₂.rows ∧ o₁.imps = o₂.imps := by
+  obtain ⟨c1, e1⟩ := window_chunking_unobservable_partial h₁ im him fuel hfuel
+  obtain ⟨c2, e2⟩ := window_chunking_unobservable_partial h₂ im him fuel hfuel
+  exact ⟨_, _, e1, e2, rfl, rfl⟩
+
 theorem fieldsToUse_sublist (names : List String) (incl excl : Option (List String)) :
     (fieldsToUse names incl excl).Sublist names := by
   unfold fieldsToUse
@@ -242,27 +290,56 @@ example : Table 2 ([[⟨false, [120]⟩, ⟨true, [112, 44, 113]⟩]] ++ [[⟨fa
     simp only [List.mem_cons, List.not_mem_nil, or_false] at hc <;> rcases hc with h | h <;> subst h <;>
     simp [Cell.WF] <;> decide
 
+/-- the example file read with `chunk_row_size = 3` (windows of 12 bytes: three kernel calls) is in the supported regime -/
+example : Supported (render (exHeader :: exRows)) 3 2 [0, 100, 200] exHeader exRows := by
+  refine ⟨Or.inl rfl, by decide, ⟨rfl, ?_⟩, ⟨by decide, ?_⟩, by decide, ?_, ?_, ⟨rfl, rfl, ?_⟩, ?_⟩
+  · intro c hc
+    simp only [exHeader, List.mem_cons, List.not_mem_nil, or_false] at hc
+    rcases hc with h | h <;> subst h <;> simp [Cell.WF] <;> decide
+  · intro r hr
+    simp only [exRows, List.mem_cons, List.not_mem_nil, or_false] at hr
+    rcases hr with h | h | h <;> subst h <;> refine ⟨rfl, ?_⟩ <;> intro c hc <;>
+      simp only [List.mem_cons, List.not_mem_nil, or_false] at hc <;> rcases hc with h | h <;> subst h <;>
+      simp [Cell.WF] <;> decide
+  · intro l hl
+    simp only [exHeader, exRows, List.mem_cons, List.not_mem_nil, or_false] at hl
+    rcases hl with h | h | h | h <;> subst h <;> decide
+  · intro l hl
+    simp only [exHeader, exRows, List.mem_cons, List.not_mem_nil, or_false] at hl
+    rcases hl with h | h | h | h <;> subst h <;> decide
+  · intro c hc
+    have : c = 0 ∨ c = 1 := by omega
+    rcases this with rfl | rfl <;> decide
+  · intro c hc
+    have : c = 0 ∨ c = 1 := by omega
+    rcases this with rfl | rfl <;> decide
+
+example : (match readFile (render (exHeader :: exRows)) 3 2 [0, 100, 200] [0, 1]
+                   [{ kind := .indexed }, { kind := .indexed }] 6 with
+           | .ok o => decide (o = ⟨3, [fieldOf [[120], [121], []], fieldOf [[112, 44, 113], [114, 34, 115], [116, 10, 117]]],
+                                   [1, 1, 1]⟩)
+           | .error _ => false) = true := by
+  decide +kernel
+
 example : values exRows = [[[120], [112, 44, 113]], [[121], [114, 34, 115]], [[], [116, 10, 117]]] := by decide
 example : fieldsToUse ["a", "b", "c"] (some ["c", "a"]) (some ["a"]) = ["c"] := by decide
 
 /-! ### not proved
 
-`window_chunking_unobservable` (full statement):
-  for every well-formed file `file` of a header and a table `rows` with `ncols` columns, every `crs ≥ 1` in the supported
-  regime `Supported crs file := every line of `file` (header line and every record, with its line break) has at most
-  `2 * crs * ncols` bytes`, every `offs` with budgets ≥ 1 and every `index_map`:
+`window_chunking_unobservable` (full statement): the conclusion of `window_chunking_unobservable_partial` for every `crs` with
+  `Supported.reg` alone and every `offs` with budgets ≥ 1, i.e. without `min` and `fit`:
     ∃ fuel calls, readFile file crs ncols offs im (fresh indexed fields) fuel
         = .ok ⟨rows.length, im.map (fun c => fieldOf (column (values rows) c)), calls⟩
-  i.e. the result equals the single-window result of `import_single_window_eq_spec` for every chunk size and any number of
-  windows (partial trailing records are re-read; an escaped-quote candidate at a window end is retried).
-`regrowth_unobservable` (full statement): the same conclusion without the hypotheses `Fits` and `rows < 2·crs`, for any
-  number of index-buffer and value-buffer regrowths (budgets double until the cell fits).
-What is proved of it: the kernel half — `fsm_window_eq_spec`: every window of the supported regime (complete records, then any
-prefix of the next record) contributes exactly its complete records and resumes at the start of the unfinished one, from
-any record boundary (`fsm_split_at_record_end`). What is missing: the induction over driver iterations (cutting the file
-into windows, `IndexedStringImporter`'s rebasing by `chunk_accumulated` across calls, stale staging buffers between calls)
-and, for regrowth, the kernel's early return on a full buffer. Support for the unproved part: the correspondence run (exhaustive small scope over every supported
-`crs`, budgets 1/2/ample, all-empty-cell files; random files), model = code = reference parser.
+`regrowth_unobservable` (full statement): the same, stressing any number of index-buffer and value-buffer regrowths (the
+  budget of the full column doubles until the cell fits; the call is re-entered at the last record end inside the same window).
+What is proved of them: everything that does not involve a full buffer — the kernel on every window of the regime
+(`fsm_window_eq_spec`, from any record boundary: `fsm_split_at_record_end`) and the whole driver loop over any number of
+windows (`window_chunking_unobservable_partial`). What is missing: the kernel's early return when a buffer fills (flags,
+`val_full_col_idx`, resume position = last record end), the driver's regrowth branch and re-entry with `start_index > 0`
+(the fixes D26 / NC05a live exactly there), and the termination argument for repeated doubling. Support for the unproved
+part: the correspondence run (exhaustive small scope over every supported `crs` with budgets 1 / 2 / ample, all-empty-cell
+files that fill the index buffer, random files), model = code = reference parser on every case.
 -/
+
 
 end Exetera.Props.C05
